@@ -106,6 +106,8 @@ func runC03(p *core.Program, r *core.Report) {
 	r.Rule("C03.zipstatus", "doZip marks the pack ZIPPED exactly when it compresses; doUnZip decompresses exactly when marked", 1)
 	r.Rule("C03.errcheck", "a value obtained together with an error is not consumed on the err != nil branch", 2)
 
+	r.Rule("C03.empty-blob", "a record blob that was never filled decodes as no records: a getter that opens a stream over a blob field and reads a count from it first rules out the empty blob (a decoded pack holds an empty, non-nil blob where the original held nil — a nil test alone lets it through to a read that fails)", 6)
+	c03EmptyBlob(p, r, "C03.empty-blob", "lang/pack")
 	r.Rule("C03.in-place", "decoders store what they read into the container itself (no decode into a range copy, no append after a full-length make)", 60)
 	decodeInPlace(p, x, r, "C03.in-place", []string{"lang/pack"})
 	checkRegistry(p, r, "C03.registry", "lang/pack", "CreatePack", "Pack", "GetPackType")
@@ -531,6 +533,168 @@ func c03ZipPure(p *core.Program, r *core.Report) {
 			r.Viol("C03.zippure", c, p.Pos(fi.Decl.Pos()), "uses package-level state: "+strings.Join(bad, ", ")+" — the returned slice may alias storage reused by the next call")
 		} else {
 			r.OK("C03.zippure", c, p.Pos(fi.Decl.Pos()), "no package-level variable reachable")
+		}
+	}
+}
+
+// c03EmptyBlob: in every method of relPkg other than Read/Write that opens io.NewDataInputX over a
+// byte-slice field of its receiver (directly, or by handing the field to a helper of the package that
+// opens the stream over that parameter) and reads from the stream outside any loop, the way to that
+// read has established that the field is not empty: `len(this.F) == 0` found false (or `> 0` true).
+// `this.F == nil` alone is not enough: ReadBlob/ReadBytes hand a decoded pack an empty, non-nil slice.
+func c03EmptyBlob(p *core.Program, r *core.Report, rule, relPkg string) {
+	pk := p.Pkg(relPkg)
+	if pk == nil {
+		return
+	}
+	// opensOver: does fn open a stream over its i-th parameter and read from it outside loops?
+	readsOutsideLoop := func(fi *core.FuncInfo, stream types.Object) bool {
+		info := fi.Pkg.TypesInfo
+		found := false
+		var walk func(n ast.Node, inLoop bool)
+		walk = func(n ast.Node, inLoop bool) {
+			ast.Inspect(n, func(m ast.Node) bool {
+				switch v := m.(type) {
+				case *ast.ForStmt:
+					if v.Init != nil {
+						walk(v.Init, inLoop)
+					}
+					walk(v.Body, true)
+					return false
+				case *ast.RangeStmt:
+					walk(v.Body, true)
+					return false
+				case *ast.CallExpr:
+					if sel, ok := v.Fun.(*ast.SelectorExpr); ok && strings.HasPrefix(sel.Sel.Name, "Read") {
+						if id, ok := ast.Unparen(sel.X).(*ast.Ident); ok && info.ObjectOf(id) == stream && !inLoop {
+							found = true
+						}
+					}
+				}
+				return true
+			})
+		}
+		walk(fi.Decl.Body, false)
+		return found
+	}
+	streamOver := func(fi *core.FuncInfo, matches func(ast.Expr) bool) (types.Object, *ast.CallExpr) {
+		info := fi.Pkg.TypesInfo
+		var obj types.Object
+		var at *ast.CallExpr
+		ast.Inspect(fi.Decl.Body, func(n ast.Node) bool {
+			as, ok := n.(*ast.AssignStmt)
+			if !ok || len(as.Lhs) != 1 || len(as.Rhs) != 1 {
+				return true
+			}
+			call, ok := ast.Unparen(as.Rhs[0]).(*ast.CallExpr)
+			if !ok || !isCallTo(info, call, core.ModPath+"/io", "NewDataInputX") || len(call.Args) != 1 || !matches(call.Args[0]) {
+				return true
+			}
+			if id, ok := as.Lhs[0].(*ast.Ident); ok {
+				obj, at = info.ObjectOf(id), call
+			}
+			return true
+		})
+		return obj, at
+	}
+	for _, fi := range p.Funcs {
+		if fi.Pkg != pk || fi.Decl.Body == nil || core.RecvNamed(fi.Obj) == nil || fi.Obj.Name() == "Read" || fi.Obj.Name() == "Write" {
+			continue
+		}
+		info := fi.Pkg.TypesInfo
+		rn := recvName(fi)
+		isField := func(e ast.Expr) (string, bool) {
+			sel, ok := ast.Unparen(e).(*ast.SelectorExpr)
+			if !ok {
+				return "", false
+			}
+			id, ok := ast.Unparen(sel.X).(*ast.Ident)
+			if !ok || id.Name != rn {
+				return "", false
+			}
+			if _, isSlice := info.TypeOf(sel).Underlying().(*types.Slice); !isSlice {
+				return "", false
+			}
+			return sel.Sel.Name, true
+		}
+		type site struct {
+			field string
+			node  ast.Node
+		}
+		var sites []site
+		var fld string
+		if st, at := streamOver(fi, func(e ast.Expr) bool {
+			f, ok := isField(e)
+			if ok {
+				fld = f
+			}
+			return ok
+		}); st != nil && readsOutsideLoop(fi, st) {
+			sites = append(sites, site{fld, at})
+		}
+		// the field handed to a helper that opens the stream over its parameter
+		ast.Inspect(fi.Decl.Body, func(n ast.Node) bool {
+			call, ok := n.(*ast.CallExpr)
+			if !ok {
+				return true
+			}
+			var id *ast.Ident
+			switch f := ast.Unparen(call.Fun).(type) {
+			case *ast.Ident:
+				id = f
+			case *ast.SelectorExpr:
+				id = f.Sel
+			}
+			if id == nil {
+				return true
+			}
+			fn, _ := info.Uses[id].(*types.Func)
+			if fn == nil || fn.Pkg() != fi.Obj.Pkg() {
+				return true
+			}
+			hf := p.FuncOf(fn)
+			if hf == nil || hf.Decl.Body == nil || hf == fi {
+				return true
+			}
+			for i, a := range call.Args {
+				f, ok := isField(a)
+				if !ok {
+					continue
+				}
+				var pobj types.Object
+				k := 0
+				for _, pf := range hf.Decl.Type.Params.List {
+					for _, nm := range pf.Names {
+						if k == i {
+							pobj = hf.Pkg.TypesInfo.Defs[nm]
+						}
+						k++
+					}
+				}
+				if pobj == nil {
+					continue
+				}
+				hinfo := hf.Pkg.TypesInfo
+				if st, _ := streamOver(hf, func(e ast.Expr) bool {
+					x, ok := ast.Unparen(e).(*ast.Ident)
+					return ok && hinfo.ObjectOf(x) == pobj
+				}); st != nil && readsOutsideLoop(hf, st) {
+					sites = append(sites, site{f, call})
+				}
+			}
+			return true
+		})
+		for _, s := range sites {
+			nonEmpty := false
+			for _, a := range dominatingAtoms(fi, s.node) {
+				k := condKey(info, func(e ast.Expr) string { return strings.ReplaceAll(stripSpaces(types.ExprString(e)), rn+".", "") }, a.E, a.V)
+				if k == "len("+s.field+")==0=false" || k == "len("+s.field+")>0=true" || k == "len("+s.field+")>=1=true" {
+					nonEmpty = true
+				}
+			}
+			c := core.FuncName(fi.Obj) + " decodes " + s.field
+			r.Check(nonEmpty, rule, c, p.Pos(fi.Decl.Pos()), "the empty blob is ruled out before the first read",
+				"a count is read from a stream over "+s.field+" without `len("+s.field+") == 0` having been ruled out: a pack that never had records (or was decoded from one) makes the read fail instead of yielding no records")
 		}
 	}
 }
